@@ -173,17 +173,23 @@ def run_size(lib, scene, seed, S, nsteps, ref, journal_base):
       if in_sync:
         r = ref[k]
         ncon, nefc = int(d.ncon), int(d.nefc)
-        if ncon > r['ncon'] or (not cf and not nf and (ncon != r['ncon'] or nefc != r['nefc'])):
-          raise Viol('memory=%d step %d: ncon=%d nefc=%d vs unbounded run ncon=%d nefc=%d, warnings contactfull=%d '
-                     'cnstrfull=%d' % (S, k, ncon, nefc, r['ncon'], r['nefc'], cf, nf), 'truncation-without-warning')
+        # Rule: d->ncon / d->contact after mj_step are those of the LAST pipeline evaluation of the step. With RK4 that is the
+        # 4th sub-stage, evaluated at a state that depends on the forces of the earlier sub-stages; once a sub-stage was
+        # truncated (CONTACTFULL/CNSTRFULL raised in this step) that state differs from the unbounded run's, so contact
+        # count and identity are comparable with the unbounded run only when nothing was truncated (or not RK4).
+        rk4 = int(m.opt.integrator) == E.mjINT_RK4
+        comparable = not (rk4 and (cf or nf))
+        if ncon > r['ncon'] and comparable:
+          raise Viol('memory=%d step %d: ncon=%d exceeds the unbounded run (ncon=%d nefc=%d), warnings contactfull=%d '
+                     'cnstrfull=%d' % (S, k, ncon, r['ncon'], r['nefc'], cf, nf), 'more-contacts-than-unbounded')
+        if not cf and not nf and (ncon != r['ncon'] or nefc != r['nefc']):
+          raise Viol('memory=%d step %d: ncon=%d nefc=%d vs unbounded run ncon=%d nefc=%d without any warning' % (
+              S, k, ncon, nefc, r['ncon'], r['nefc']), 'truncation-without-warning')
         if (ncon < r['ncon'] or nefc < r['nefc']) and not (cf or nf):
           raise Viol('memory=%d step %d: constraint set shrank (ncon %d<%d / nefc %d<%d) without CONTACTFULL/CNSTRFULL'
                      % (S, k, ncon, r['ncon'], nefc, r['nefc']), 'truncation-without-warning')
         keys = contact_keys(d)
-        # (RK4 leaves the contacts of its last sub-stage, which is evaluated at a state that depends on the forces of
-        #  the earlier sub-stages: only comparable when nothing was truncated)
-        rk4 = int(m.opt.integrator) == E.mjINT_RK4
-        if not keys <= r['keys'] and not (rk4 and (cf or nf)):
+        if not keys <= r['keys'] and comparable:
           raise Viol('memory=%d step %d: %d contacts of the truncated set are not contacts of the unbounded run' % (
               S, k, len(keys - r['keys'])), 'contact-not-in-reference')
         if cf or nf:
